@@ -123,9 +123,6 @@ def gen_case(rng, srcs, i):
         spec.pop("no_embed", None)
     c["meta"]["mode"] = "sidecar" if spec.get("no_embed") else "embedded"
     spec["settings"].pop("core", None)
-    for a in spec["definition"]["assertions"]:
-        if a["label"] == "stds.schema-org.CreativeWork":
-            a.pop("created", None)          # C03 F-CW-CREATED: not this property's subject
     c["chain"] = 1 + i % 3
     return c
 
